@@ -16,14 +16,26 @@ theorem ready_stable {s s' : St} (a : Actor) (hs : step s a = some s') (q : Seq)
   | run t =>
     simp only [step, stepRun] at hs
     generalize hpc : (s.loc t).pc = pc at hs
+    by_cases hx : pc = .x0
+    · subst hx
+      simp only [doX0, Option.some.injEq] at hs
+      subst hs
+      by_cases hcl : s.closed = true
+      · simpa [hcl, setLoc] using hr
+      · by_cases hreg : (s.cells q).reg = true
+        · by_cases he : expiredAt (s.cells q).ttl s.now = true
+          · simpa [hcl, setLoc, hreg, he] using hr
+          · simp [hcl, setLoc, hreg, he]
+        · simpa [hcl, setLoc, hreg] using hr
     cases pc <;>
       simp only [doC1, doC2, doC3, doW0, doS0, doS1, doS2, doS2w, doZz, doS2r, doS3, doP0, doX0, doR0, doN0, doN1, doN2,
         doD0, doD1, doD2, doD3, doD4, doD5, doW9, doW10, Option.some.injEq] at hs <;>
+      (first | exact absurd rfl hx | skip) <;>
       (repeat' split at hs) <;>
       (first | cases hs | skip) <;>
       (try subst hs) <;>
       (first | done | exact hr
-             | (simp [setLoc, setCell, markDispatched, leaveServe]; first | done | exact hr | (split <;> simp_all) | simp_all))
+             | (simp [setLoc, setCell, markDispatched, leaveServe]; first | done | exact hr | (split <;> rfl) | (split <;> simp_all) | simp_all))
   | call t tmo => simp only [step] at hs; split at hs <;> cases hs; simpa [doCall, setLoc] using hr
   | bg t => simp only [step] at hs; split at hs <;> cases hs; simpa [setLoc] using hr
   | stop t => simp only [step] at hs; split at hs <;> cases hs; simpa [setLoc] using hr
@@ -74,12 +86,21 @@ theorem ready_new {s s' : St} (hI : InvS s) (a : Actor) (hs : step s a = some s'
       by_cases hq : q = q0
       · subst hq; exact ⟨t, by simpa [setLoc, setCell] using hpop⟩
       · simp [setLoc, setCell, hq, hr] at hr'
-    · exfalso
+    · by_cases hx : pc = .x0
+      · subst hx
+        simp only [doX0, Option.some.injEq] at hs
+        subst hs
+        by_cases hcl : s.closed = true
+        · simp [hcl, setLoc, hr] at hr'
+        · by_cases hreg : (s.cells q).reg = true
+          · exact ⟨t, by simp [hcl, setLoc, hreg]⟩
+          · simp [hcl, setLoc, hreg, hr] at hr'
+      exfalso
       revert hr'
       cases pc <;>
         simp only [doC1, doC2, doC3, doW0, doS0, doS1, doS2, doS2w, doZz, doS2r, doS3, doP0, doX0, doR0, doN0, doN1, doN2,
           doD0, doD1, doD2, doD3, doD4, doD5, doW9, doW10, Option.some.injEq] at hs <;>
-        (first | exact absurd rfl h5 | skip) <;>
+        (first | exact absurd rfl h5 | exact absurd rfl hx | skip) <;>
         (repeat' split at hs) <;>
         (first | cases hs | skip) <;>
         (try subst hs) <;>
